@@ -127,9 +127,19 @@ def do_import(pid, name, prefix="seed"):
     for f in os.listdir(src):
         if f in ("prompt.txt", "property.json"):
             continue
+        if os.path.isdir(os.path.join(src, f)):
+            # demo/<path in the tree>/<file>: several demonstration files, kept under flattened names
+            for root, _, files in os.walk(os.path.join(src, f)):
+                for g in files:
+                    rel = os.path.relpath(os.path.join(root, g), os.path.join(src, f))
+                    flat = "demo__" + rel.replace("/", "__")
+                    shutil.copy(os.path.join(root, g), os.path.join(dst, flat))
+                    if rel in untracked:
+                        meta["demo_paths"][flat] = rel
+            continue
         shutil.copy(os.path.join(src, f), os.path.join(dst, f))
         for u in untracked:
-            if os.path.basename(u) == f:
+            if os.path.basename(u) == f and u not in meta["demo_paths"].values():
                 meta["demo_paths"][f] = u
     if isinstance(meta.get("files_changed"), str):
         meta["files_changed"] = [meta["files_changed"]]
@@ -139,8 +149,8 @@ def do_import(pid, name, prefix="seed"):
 
 if __name__ == "__main__":
     a = sys.argv[1:]
-    if a[0] in ("import", "import2", "import3"):
-        pref = {"import": "seed", "import2": "seed2", "import3": "seed3"}[a[0]]
+    if a[0] in ("import", "import2", "import3", "import4"):
+        pref = {"import": "seed", "import2": "seed2", "import3": "seed3", "import4": "seed4"}[a[0]]
         do_import(a[1], a[2], pref)
         if a[0] != "import":
             subprocess.run(["git", "-C", "/repo", "worktree", "remove", "--force", "/tmp/%s-%s" % (pref, a[1])])
